@@ -584,6 +584,28 @@ def str_format(I, s, args, kwargs):
 def native_getattr(I, obj, name):
     if isinstance(obj, I.TypeObj) and obj.name == "dict" and name == "fromkeys":
         return NativeFn("dict.fromkeys", dict_fromkeys)
+    if isinstance(obj, I.TypeObj) and obj.name == "int" and name == "from_bytes":
+        def _from_bytes(I_, args, kw):
+            b = args[0]
+            order = args[1] if len(args) > 1 else kw.get("byteorder", "big")
+            if kw.get("signed"):
+                raise Unsupported("int.from_bytes(signed=True)")
+            if isinstance(b, bytes):
+                return int.from_bytes(b, order)
+            n = b.length if isinstance(b, SymBytes) else None
+            if isinstance(b, SymBytes) and not isinstance(n, int):
+                for cand in (0, 1, 2, 3, 4):
+                    if I_.decide(cmp_op("==", mk_int(n), cand), "from_bytes-length"):
+                        n = cand
+                        break
+            if isinstance(b, SymBytes) and isinstance(n, int) and order in ("big", "little"):
+                idx = range(n) if order == "big" else range(n - 1, -1, -1)
+                v = 0
+                for i in idx:
+                    v = int_add(binop(I_, ast.Mult(), v, 256), bytes_index(b, i))
+                return v
+            raise Unsupported("int.from_bytes of a symbolic-length byte string")
+        return NativeFn("int.from_bytes", _from_bytes)
     if isinstance(obj, Opaque):
         return Opaque(obj.name + "." + name)
     if isinstance(obj, SymInt) and name in ("real",):
